@@ -1,5 +1,6 @@
 import A816.Model.OpsBasic
 import A816.Model.OpsExpr
+import A816.Model.OpsCpu
 /-! Line-protocol driver: one operation per line on stdin, one canonical answer per line on stdout.
     This file contains the only `partial def` of the project (the I/O loop); no theorem imports it. -/
 open A816
@@ -10,6 +11,9 @@ def handle (line : String) : String :=
   | some r => r
   | none =>
   match Ops.handleExpr ws with
+  | some r => r
+  | none =>
+  match Ops.handleCpu ws with
   | some r => r
   | none => "bad-op"
 
